@@ -6,7 +6,7 @@ use vcore::drive::{prop_par, Verdict};
 use vcore::rt::{self, digest_str, esc, Acc, Args, Report};
 use vcore::sgr::{self, to_style, MColor, MStyle};
 
-const RULE: &str = "Styles: per adapter, every one of the 16 palette + 256 indexed colours and a 9^3 RGB lattice plus every RGB value the xterm-256 / VGA / Win10 palettes name in each colour slot x a covering family of effect sets (none, each single effect, all), all 4096 effect sets x a covering family of colour combinations, and seeded random full styles; syntect: random styles incl. alpha and every font-style subset. Oracles: (value) the converted value == a value built through the target library's public constructors from the harness's own mapping tables; (render) the value rendered by the target library itself, interpreted by the reference SGR interpreter up to a marker character, == the input projected on what that library can express (hue always; brightness for crossterm/owo/yansi, bright foreground = hue + bold for ansi_term; indexed and RGB exact; underline colour for crossterm; the eight classic effects, for termcolor bold/dim/italic/underline); nothing extra may appear. Non-trivial = a colour in at least one slot and at least one effect (distinct by (adapter, style)).";
+const RULE: &str = "Styles: per adapter, every one of the 16 palette + 256 indexed colours and a 9^3 RGB lattice plus every RGB value the xterm-256 / VGA / Win10 palettes name in each colour slot x a covering family of effect sets (none, each single effect, all), all 4096 effect sets x a covering family of colour combinations, and seeded random full styles; syntect: random styles incl. alpha and every font-style subset. Oracles: (value) the converted value == a value built through the target library's public constructors from the harness's own mapping tables; (render) the value rendered by the target library itself, interpreted by the reference SGR interpreter up to a marker character, == the input projected on what that library can express (hue always; brightness for crossterm/owo/yansi, bright foreground = hue + bold for ansi_term; indexed and RGB exact; underline colour for crossterm; the eight classic effects - for crossterm also the four further underline kinds, for termcolor only bold/dim/italic/underline/strikethrough); nothing extra may appear. Non-trivial = a colour in at least one slot and at least one effect (distinct by (adapter, style)).";
 
 #[derive(Clone, Copy, Debug, PartialEq, Eq, Serialize, Deserialize)]
 enum Adapter {
@@ -91,6 +91,10 @@ fn expect_crossterm(m: &MStyle) -> crossterm::style::ContentStyle {
         (sgr::DIMMED, A::Dim),
         (sgr::ITALIC, A::Italic),
         (sgr::UNDERLINE, A::Underlined),
+        (sgr::DOUBLE_UNDERLINE, A::DoubleUnderlined),
+        (sgr::CURLY_UNDERLINE, A::Undercurled),
+        (sgr::DOTTED_UNDERLINE, A::Underdotted),
+        (sgr::DASHED_UNDERLINE, A::Underdashed),
         (sgr::BLINK, A::SlowBlink),
         (sgr::INVERT, A::Reverse),
         (sgr::HIDDEN, A::Hidden),
@@ -166,6 +170,7 @@ fn expect_termcolor(m: &MStyle) -> termcolor::ColorSpec {
     s.set_dimmed(has(m, sgr::DIMMED));
     s.set_italic(has(m, sgr::ITALIC));
     s.set_underline(has(m, sgr::UNDERLINE));
+    s.set_strikethrough(has(m, sgr::STRIKETHROUGH));
     s
 }
 
@@ -258,12 +263,21 @@ fn projection(a: Adapter, m: &MStyle) -> MStyle {
             p.fg = m.fg.map(hue);
             p.bg = m.bg.map(hue);
         }
-        Adapter::Crossterm => p.ul = m.ul,
+        Adapter::Crossterm => {
+            p.ul = m.ul;
+            // crossterm can express all five underline kinds (F21); a terminal has one at a time and
+            // the kinds are emitted in declaration order, so the last one set is the one in force
+            let kinds = m.effects & sgr::UL_KINDS;
+            if kinds != 0 {
+                let last = 1u16 << (15 - kinds.leading_zeros() as u16);
+                p.effects = (p.effects & !sgr::UL_KINDS) | last;
+            }
+        }
         Adapter::Owo | Adapter::Yansi => {}
         Adapter::Termcolor => {
             p.fg = m.fg.map(hue);
             p.bg = m.bg.map(hue);
-            p.effects &= sgr::BOLD | sgr::DIMMED | sgr::ITALIC | sgr::UNDERLINE;
+            p.effects &= sgr::BOLD | sgr::DIMMED | sgr::ITALIC | sgr::UNDERLINE | sgr::STRIKETHROUGH;
         }
     }
     p.canon()
